@@ -860,6 +860,27 @@ func runC08(c *Ctx) {
 					}
 				}
 			}
+			// a guard on the representation invariant len(slice) == width*height: every constructor establishes it
+			// (alloc-size, clone-detached), the fields are unexported and every method has a value receiver, so no
+			// array that exists violates it - the path is never taken
+			if !justified {
+				Lp := ToPoly(&Term{Op: "builtin", Sym: "len", Args: []*Term{{Op: "field", Args: []*Term{owner}, Obj: x.fS}}})
+				for _, cd := range p.Conds {
+					if pl, kind, isInt := cd.Rel().IntNorm(); isInt && kind == "!=" && pl.Equal(canonSign(Lp.Add(Wp.Mul(Hp), -1))) {
+						valueRecv := true
+						for _, g := range funcs {
+							if sg := g.Obj.Type().(*types.Signature); sg.Recv() != nil {
+								if _, isPtr := sg.Recv().Type().(*types.Pointer); isPtr {
+									valueRecv = false
+								}
+							}
+						}
+						if valueRecv {
+							justified = true
+						}
+					}
+				}
+			}
 			if !justified {
 				ok, why = false, "a panic path is not justified by a coordinate being < 0 or >= its dimension ("+p.CondString()+"): in-range coordinates are rejected"
 			}
@@ -975,6 +996,16 @@ func runC08(c *Ctx) {
 	// ---- clone-detached
 	if fi := c.fn("clone-detached", "arrays.(Array2D).Clone"); fi != nil {
 		ps := allPaths[fi]
+		// panicking paths return nothing; whether they are justified is the business of guards-exact
+		{
+			var rest []*Path
+			for _, p := range ps {
+				if p.End != EndPanic {
+					rest = append(rest, p)
+				}
+			}
+			ps = rest
+		}
 		ok, why := len(ps) == 1 && len(ps[0].Rets) == 1 && ps[0].Rets[0].Op == "struct", "does not return a literal Array2D on a single path"
 		if ok {
 			st := ps[0].Rets[0]
@@ -1410,5 +1441,21 @@ func c08Extra(x *c08, funcs []*FuncInfo, allPaths map[*FuncInfo][]*Path) {
 			}
 		}
 		R.Decide(ok, "string-cells", fi.Name, "cells", c.pos(fi), "for y in [0,height), x in [0,width): prints cell (x, y) exactly once", why)
+	}
+	// A span computation moved into an unchecked helper turns several row-major sites into one site in the helper plus one
+	// callee-precondition per caller: the floor of row-major is about "the spans are still being looked at" and counts both.
+	{
+		n := 0
+		for _, o := range R.Obs {
+			if o.Rule == "row-major" || o.Rule == "callee-precondition" {
+				n++
+			}
+		}
+		if R.AltCounts == nil {
+			R.AltCounts = map[string]int{}
+		}
+		if n > R.AltCounts["row-major"] {
+			R.AltCounts["row-major"] = n
+		}
 	}
 }
